@@ -206,3 +206,33 @@ def r04_7_cache_node(ctx: Ctx) -> RuleResult:
     for f in r.findings:
         f.rule = "R04.7"
     return r
+
+
+ZONE_MAP_MODULES = ("pyoda_time/time_zones/_standard_daylight_alternating_map.py", "pyoda_time/time_zones/_precalculated_date_time_zone.py",
+                    "pyoda_time/time_zones/_zone_recurrence.py", "pyoda_time/time_zones/_caching_zone_interval_map.py", "pyoda_time/time_zones/_zone_year_offset.py")
+
+
+@rule("C04")
+def r04_8_queries_are_used(ctx: Ctx) -> RuleResult:
+    """Every transition / interval obtained from a recurrence or map query takes part in the decision that follows: a query result
+    bound to a local that is never read means the comparison below it looks at something else."""
+    rr = RuleResult("R04.8", "zone-interval maps: every recurrence / transition / interval query bound to a local is read afterwards (no decision is taken on a stale or wrong operand while the queried one is dropped)", min_instances=15)
+    M = ctx.M
+    for f in sorted(M.funcs.values(), key=lambda g: g.qual):
+        if f.mod.rel not in ZONE_MAP_MODULES or isinstance(f.node, ast.Lambda):
+            continue
+        loads: dict[str, int] = {}
+        for n in ast.walk(f.node):
+            if isinstance(n, ast.Name) and isinstance(n.ctx, ast.Load):
+                loads[n.id] = loads.get(n.id, 0) + 1
+        for n in own_nodes(f.node):
+            if isinstance(n, (ast.Assign, ast.AnnAssign)) and n.value is not None and isinstance(n.value, ast.Call):
+                tgts = n.targets if isinstance(n, ast.Assign) else [n.target]
+                for t in tgts:
+                    if isinstance(t, ast.Name) and not t.id.startswith("_"):
+                        rr.inst(nontrivial=False)
+                        if loads.get(t.id, 0) == 0:
+                            rr.fail(f.qual, f"`{t.id} = {unparse(n.value)[:60]}` is never read: the decision that follows does not depend on this query", ctx.loc(f, n))
+                        else:
+                            rr.ok()
+    return rr
